@@ -4,54 +4,17 @@
    element types and every argument list (by case analysis over the argument shapes and induction over the
    lists, not by evaluation on samples).  Then the headline theorems of C20.v restated for [run_ctor]. *)
 From Coq Require Import String.
-From Verif Require Import Base Sorter Value Seq Coll Pool PoolRun Params SetProofs AssocProofs Facade FacadeProofs ModuleLang ModuleSem GenModule.
+From Verif Require Import Base Sorter Value Seq Coll Pool PoolRun Params SetProofs AssocProofs Facade FacadeProofs ModuleLang ModuleSem ModuleFacts ModuleTactics GenModule.
 Open Scope Z_scope.
 Open Scope list_scope.
 
 (* ---------- generic: a loop of the interpreter simulates a fold of the model ---------- *)
-Fixpoint fold_model {St} (model : St -> arg -> option St) (s : St) (args : list arg) : option St :=
-  match args with
-  | [] => Some s
-  | a :: r => match model s a with Some s' => fold_model model s' r | None => None end
-  end.
 
-Lemma assign_is_fold : forall k args s, assign k s args = fold_model (accept k) s args.
-Proof. intros k. induction args as [|a r IH]; intros s; cbn; [reflexivity|]. destruct (accept k s a); [apply IH|reflexivity]. Qed.
 
-Section LoopSim.
-Variables (St : Type) (envf : St -> list mval -> menv) (model : St -> arg -> option St) (ok : arg -> Prop) (K : nat).
-Variable step : arg -> menv -> mres.
-Hypothesis step_sim : forall s scr a, ok a -> length scr = K ->
-  exists scr', length scr' = K /\
-    step a (envf s scr) = match model s a with Some s' => RNormal (envf s' scr') | None => RPanic end.
 
-Lemma loop_sim : forall args s scr, Forall ok args -> length scr = K ->
-  match fold_model model s args with
-  | Some s' => exists scr', length scr' = K /\ fold_loop step args (envf s scr) = RNormal (envf s' scr')
-  | None => fold_loop step args (envf s scr) = RPanic
-  end.
-Proof.
-  induction args as [|a r IH]; intros s scr F L; cbn [fold_model fold_loop].
-  - exists scr. split; [exact L|reflexivity].
-  - inversion_clear F as [|? ? Ha Hr]. destruct (step_sim s scr a Ha L) as (scr' & L' & E). rewrite E.
-    destruct (model s a) as [s'|]; [|reflexivity]. apply (IH s' scr' Hr L').
-Qed.
-End LoopSim.
 
-Tactic Notation "explode" ident(scr) integer(n) :=
-  do n (let x := fresh "x" in destruct scr as [|x scr]; [discriminate|]); destruct scr; [|discriminate].
 
-Lemma exec_cons : forall args f c e s rest,
-  exec args (S f) c e (s :: rest) =
-  match exec1 args (exec args f) c e s with RNormal e' => exec args f c e' rest | other => other end.
-Proof. reflexivity. Qed.
 
-(* the arguments the model is about: sizes are not negative *)
-Definition size_ok (a : arg) : Prop := match a with AInt z | AUint z => 0 <= z | _ => True end.
-
-Definition opt_slice (o : option (list val)) : mval := match o with Some l => MArgV (ASlice l) | None => MNone end.
-Definition opt_seq (o : option (list val)) : mval := match o with Some l => MArgV (ASeq KList l) | None => MNone end.
-Definition src_of (s : slots) : mval := MArgV (AString (s_text s) (s_parsed s)).
 
 (* ====================================================================================================== *)
 (* Stack                                                                                                    *)
@@ -59,11 +22,6 @@ Definition src_of (s : slots) : mval := MArgV (AString (s_text s) (s_parsed s)).
 Definition env_stack (s : slots) (scr : list mval) : menv :=
   [MArgV ANotation; MZ (s_size s); MB (s_has_size s); opt_slice (s_values s); opt_seq (s_seq s); src_of s] ++ scr.
 
-Definition loop_body (g : gen_ctor) : list mstmt :=
-  match filter (fun s => match s with SArgLoop _ => true | _ => false end) (g_body g) with
-  | [SArgLoop b] => b
-  | _ => []
-  end.
 
 Lemma stack_step : forall args0 tk tv f s scr a, size_ok a -> length scr = 8%nat ->
   exists scr', length scr' = 8%nat /\
@@ -76,49 +34,10 @@ Proof.
           | exists (repeat MNone 8%nat); split; [reflexivity|vm_compute; reflexivity] ].
 Qed.
 
-Definition pre_body (g : gen_ctor) : list mstmt :=
-  (fix go (ss : list mstmt) := match ss with [] => [] | SArgLoop _ :: _ => [] | s :: r => s :: go r end) (g_body g).
-Definition post_body (g : gen_ctor) : list mstmt :=
-  (fix go (ss : list mstmt) := match ss with [] => [] | SArgLoop _ :: r => r | _ :: r => go r end) (g_body g).
 
-Definition iter_body (ss : list mstmt) : list mstmt :=
-  match ss with [] => [] | _ => ss end.
-Fixpoint find_iter (fuel : nat) (ss : list mstmt) : list (list mstmt) :=
-  match fuel with
-  | O => []
-  | S f => flat_map (fun s => match s with
-                              | SIterLoop _ b => [b]
-                              | SSwitch cases dflt => flat_map (fun cb => find_iter f (snd cb)) cases ++ match dflt with Some b => find_iter f b | None => [] end
-                              | SIf _ a b => find_iter f a ++ find_iter f b
-                              | _ => []
-                              end) ss
-  end.
-Definition iter_body_of (g : gen_ctor) (k : nat) : list mstmt := nth k (find_iter 6 (post_body g)) [].
 
-Ltac norm_body :=
-  repeat match goal with
-  | |- context [iter_body_of ?g ?k] => let b := eval vm_compute in (iter_body_of g k) in change (iter_body_of g k) with b
-  | |- context [post_body ?g] => let b := eval vm_compute in (post_body g) in change (post_body g) with b
-  | |- context [pre_body ?g] => let b := eval vm_compute in (pre_body g) in change (pre_body g) with b
-  | |- context [loop_body ?g] => let b := eval vm_compute in (loop_body g) in change (loop_body g) with b
-  end.
 
-(* one statement: the head statement is evaluated with the executor for nested blocks kept abstract *)
-Ltac xstep :=
-  rewrite exec_cons;
-  match goal with
-  | |- context [exec1 ?a ?r ?c ?e ?s] =>
-    let R := fresh "R" in let HR := fresh "HR" in
-    remember r as R eqn:HR;
-    let v := eval lazy in (exec1 a R c e s) in change (exec1 a R c e s) with v;
-    rewrite HR; clear HR R
-  end; cbv beta iota.
 
-Definition last_or (d : mval) (vs : list val) : mval := match rev vs with v :: _ => MVal v | [] => d end.
-Lemma last_or_cons : forall d v vs, last_or d (v :: vs) = last_or (MVal v) vs.
-Proof.
-  intros d v vs. unfold last_or. cbn [rev]. destruct (rev vs) as [|w r] eqn:E; [reflexivity|]. reflexivity.
-Qed.
 
 Local Opaque as_type.
 
@@ -143,27 +62,6 @@ Qed.
 
 
 Local Opaque class_ctor.
-Ltac fin :=
-  lazy;
-  repeat match goal with
-         | |- context [match class_ctor ?k ?t ?f with _ => _ end] => destruct (class_ctor k t f)
-         end;
-  reflexivity.
-Lemma exec_nil : forall args f c e, exec args (S f) c e [] = RNormal e.
-Proof. reflexivity. Qed.
-Ltac seq_cases pv :=
-  destruct pv;
-  match goal with
-  | |- context [PColl (VSeq ?k _)] =>
-    destruct k; match goal with |- context [VSeq KSlice] => solve [fin] | |- _ => idtac end
-  | |- _ => solve [fin]
-  end.
-Ltac slots_tree sz vals sq txt prs :=
-  destruct sz as [|?p|?p]; [ | solve [fin] | ];
-  (destruct vals as [[|?v ?l]|]; [ | solve [fin] | ];
-   (destruct sq as [?l|]; [solve [fin]|];
-    (destruct txt as [|?ch ?t]; [solve [fin]|];
-     (destruct prs as [?pv|]; [|solve [fin]]; seq_cases pv)))).
 
 Lemma stack_post : forall args0 tk tv f s scr, length scr = 8%nat ->
   result_of (exec args0 (30 + f) (ctx0 tk tv) (env_stack s scr) (post_body gen_Stack)) =
@@ -189,25 +87,6 @@ Qed.
 
 
 
-(* the whole constructor: declarations, the loop over the arguments (a simulation of Facade.assign), the cascade *)
-Ltac ctor_main g k envf K stepl postl :=
-  intros tk tv args Hok; unfold run_ctor, exec_fuel;
-  let b := eval vm_compute in (g_body g) in change (g_body g) with b;
-  let n := eval vm_compute in (g_locals g) in change (g_locals g) with n;
-  cbn [repeat];
-  repeat (lazymatch goal with |- context [exec _ _ _ _ (SArgLoop _ :: _)] => fail | |- _ => xstep end);
-  rewrite exec_cons; cbn [exec1];
-  match goal with
-  | |- context [fold_loop ?st args ?e] =>
-    let H := fresh "H" in
-    pose proof (loop_sim slots envf (accept k) size_ok K st
-                  (fun s scr a Ha L => stepl args tk tv _ s scr a Ha L) args slots0 (repeat MNone K) Hok eq_refl) as H;
-    change e with (envf slots0 (repeat MNone K));
-    unfold facade; rewrite assign_is_fold;
-    destruct (fold_model (accept k) slots0 args) as [s'|];
-    [ destruct H as (scr' & L' & E); rewrite E; cbv beta iota; apply (postl args tk tv _ s' scr' L')
-    | rewrite H; reflexivity ]
-  end.
 
 Theorem gen_Stack_is_the_model : forall tk tv args, Forall size_ok args ->
   run_ctor gen_Stack tk tv args = out_map FO (facade FStack tk tv args).
@@ -219,10 +98,6 @@ Proof. ctor_main gen_Stack FStack env_stack 8%nat stack_step stack_post. Qed.
 Definition env_queue (s : slots) (scr : list mval) : menv :=
   [MArgV ANotation; MZ (s_size s); opt_slice (s_values s); opt_seq (s_seq s); src_of s] ++ scr.
 
-Ltac step_tac scr a Ha n K :=
-  destruct a; try (match goal with z : Z |- _ => destruct z as [|?p|?p]; [| |exfalso; cbn in Ha; lia] end);
-    first [ eexists; split; [|lazy; reflexivity]; reflexivity
-          | exists (repeat MNone K); split; [reflexivity|vm_compute; reflexivity] ].
 
 Lemma queue_step : forall args0 tk tv f s scr a, size_ok a -> length scr = 8%nat ->
   exists scr', length scr' = 8%nat /\
@@ -372,151 +247,6 @@ Proof.
   - rewrite H. reflexivity.
 Qed.
 
-(* ====================================================================================================== *)
-(* the headline theorems of C20.v restated for the REGENERATED constructors                                 *)
-(* ====================================================================================================== *)
-Definition gen_of (k : fkind) : gen_ctor :=
-  match k with
-  | FAssociation => gen_Association | FArray => gen_Array | FCatalog => gen_Catalog | FList => gen_List
-  | FMap => gen_Map | FQueue => gen_Queue | FSet => gen_Set | FStack => gen_Stack
-  end.
-Definition proved_kind (k : fkind) : Prop := k = FStack \/ k = FQueue.
-
-Lemma with_notation_ok : forall (P : arg -> Prop) pos args, P ANotation -> Forall P args -> Forall P (with_notation pos args).
-Proof.
-  intros P pos args Hn F. destruct pos as [|[|pos]]; cbn [with_notation]; [exact F|constructor; assumption|].
-  apply Forall_app. split; [exact F|constructor; [exact Hn|constructor]].
-Qed.
-
-Theorem gen_is_the_model : forall k tk tv args, proved_kind k -> Forall size_ok args ->
-  run_ctor (gen_of k) tk tv args = out_map FO (facade k tk tv args).
-Proof.
-  intros k tk tv args [-> | ->] F; [apply gen_Stack_is_the_model|apply gen_Queue_is_the_model]; exact F.
-Qed.
-
-Theorem C20_gen_notation_is_transparent : forall k tk tv pos args, proved_kind k -> Forall size_ok args ->
-  run_ctor (gen_of k) tk tv (with_notation pos args) = run_ctor (gen_of k) tk tv args.
-Proof.
-  intros k tk tv pos args Hk F. rewrite !(gen_is_the_model k tk tv _ Hk); [|exact F|apply with_notation_ok; [exact I|exact F]].
-  rewrite facade_notation_transparent. reflexivity.
-Qed.
-
-Theorem C20_gen_association_notation_is_transparent : forall tk tv pos args, Forall assoc_arg args ->
-  run_ctor gen_Association tk tv (with_notation pos args) = run_ctor gen_Association tk tv args.
-Proof.
-  intros tk tv pos args F. rewrite !gen_Association_is_the_model; [|exact F|apply with_notation_ok; [exact I|exact F]].
-  rewrite facade_notation_transparent. reflexivity.
-Qed.
-
-Theorem C20_gen_association_key_value : forall tk tv k v pos, has_ty tk k = true -> has_ty tv v = true ->
-  run_ctor gen_Association tk tv (with_notation pos [AVal k; AVal v]) = Ret (FO (FAssoc k v)).
-Proof.
-  intros tk tv k v pos Hk Hv. rewrite gen_Association_is_the_model.
-  - rewrite (assoc_kv tk tv k v pos Hk Hv). reflexivity.
-  - apply with_notation_ok; [exact I|]. repeat constructor.
-Qed.
-
-Theorem C20_gen_no_data_is_Make : forall k tk tv, proved_kind k ->
-  run_ctor (gen_of k) tk tv [] = out_map FO (out_map FObj (class_ctor k tv CMake)).
-Proof.
-  intros k tk tv Hk. rewrite (gen_is_the_model k tk tv [] Hk (Forall_nil _)).
-  destruct Hk as [-> | ->]; reflexivity.
-Qed.
-
-Theorem C20_gen_size_or_capacity : forall k tk tv n pos (as_int : bool), proved_kind k -> 0 <= n ->
-  run_ctor (gen_of k) tk tv (with_notation pos [if as_int then AInt n else AUint n]) =
-  out_map FO (out_map FObj (class_ctor k tv (CSize (Z.to_nat n)))).
-Proof.
-  intros k tk tv n pos as_int Hk Hn. rewrite (gen_is_the_model k tk tv _ Hk).
-  - rewrite facade_agrees_size; [reflexivity| |exact Hn]. destruct Hk as [-> | ->]; unfold is_sized_kind; auto.
-  - apply with_notation_ok; [exact I|]. constructor; [destruct as_int; exact Hn|constructor].
-Qed.
-
-Theorem C20_gen_go_array : forall k tk tv vs pos, proved_kind k ->
-  run_ctor (gen_of k) tk tv (with_notation pos [ASlice vs]) = out_map FO (out_map FObj (class_ctor k tv (CFromArray vs))).
-Proof.
-  intros k tk tv vs pos Hk. rewrite (gen_is_the_model k tk tv _ Hk).
-  - rewrite facade_agrees_slice; [reflexivity|]. destruct Hk as [-> | ->]; unfold is_seq_kind; auto.
-  - apply with_notation_ok; [exact I|]. repeat constructor.
-Qed.
-
-Theorem C20_gen_sequence : forall k tk tv sk vs pos, proved_kind k ->
-  run_ctor (gen_of k) tk tv (with_notation pos [ASeq sk vs]) = out_map FO (out_map FObj (class_ctor k tv (CFromSeq vs))).
-Proof.
-  intros k tk tv sk vs pos Hk. rewrite (gen_is_the_model k tk tv _ Hk).
-  - rewrite facade_agrees_sequence; [reflexivity|]. destruct Hk as [-> | ->]; unfold is_seq_kind; auto.
-  - apply with_notation_ok; [exact I|]. repeat constructor.
-Qed.
-
-(* the source form: what the parser itself builds from the items (kind, contents, order, capacity) *)
-Theorem C20_gen_source_is_the_class_constructor_on_the_parsed_items : forall k tk tv text sk items pos,
-  proved_kind k -> text <> [] -> sk <> KSlice -> convert_all tv items = Some items ->
-  run_ctor (gen_of k) tk tv (with_notation pos [AString text (PColl (VSeq sk items))]) =
-  out_map FO (out_map FObj (class_ctor k tv (CFromSeq items))).
-Proof.
-  intros k tk tv text sk items pos Hk Ht Hsk Hc. rewrite (gen_is_the_model k tk tv _ Hk).
-  - rewrite facade_source_sequence; [reflexivity| |exact Ht|exact Hsk|exact Hc]. destruct Hk as [-> | ->]; unfold is_seq_kind; auto.
-  - apply with_notation_ok; [exact I|]. repeat constructor.
-Qed.
-
-(* ---------- the remaining constructors: not yet proved for every argument list ---------- *)
-(* Array, Catalog, List, Map, Set: the regenerated constructor and the model are compared BY EVALUATION on a
-   fixed family of argument lists (every argument form alone, with a notation before / after, pairs of forms in
-   both orders, sources of every parsed kind with a well- and an ill-typed item) — a weaker obligation than the
-   theorems above, kept until their simulation proofs are written. *)
-Definition sv (z : Z) : val := VInt 64 z.
-Definition sample_forms : list arg :=
-  [ANotation; AInt 0; AInt 3; AUint 0; AUint 2; ASlice []; ASlice [sv 2; sv 1; sv 2]; ASeq KList []; ASeq KSet [sv 1; sv 5];
-   AGoMap [] []; AGoMap [(sv 1, sv 10); (sv 2, sv 20)] [sv 2; sv 1]; AAssocSlice []; AAssocSlice [(sv 1, sv 10); (sv 1, sv 11)];
-   AAssocSeq [(sv 3, sv 30); (sv 1, sv 10)] []; ACollator 1; ACollator 0; AVal (sv 7); AOther;
-   AString [] PPanic; AString [65] PPanic; AString [65] (PColl (VSeq KList [sv 3; sv 1; sv 3]));
-   AString [65] (PColl (VSeq KSet [sv 1; VStr [66]])); AString [65] (PColl (VSeq KSlice [sv 1]));
-   AString [65] (PColl (VMapping MCatalog [sv 1; sv 2; sv 1] [sv 10; sv 20; sv 30]));
-   AString [65] (PColl (VMapping MMap [sv 1; VNil] [sv 10; sv 20])); AString [65] (PColl (VSeq KQueue [VNil; sv 1]))].
-Definition sample_calls : list (list arg) :=
-  [[]] ++ map (fun a => [a]) sample_forms ++ map (fun a => [ANotation; a]) sample_forms ++ map (fun a => [a; ANotation]) sample_forms
-  ++ flat_map (fun a => map (fun b => [a; b]) sample_forms) sample_forms.
-Definition out_fobj_eqb (a : out fobj) (b : out fres) : bool :=
-  match a, b with
-  | Ret (FO (FObj x)), Ret (FObj y) => obj_eqb x y
-  | Ret (FO (FAssoc k v)), Ret (FAssoc k' v') => val_eqb k k' && val_eqb v v'
-  | Panic, Panic => true
-  | Hang, Hang => true
-  | _, _ => false
-  end.
-Definition sample_agree (k : fkind) (tk tv : ety) : bool :=
-  forallb (fun args => out_fobj_eqb (run_ctor (gen_of k) tk tv args) (facade k tk tv args)) sample_calls.
-
-Lemma gen_remaining_agree_on_samples_partial :
-  forallb (fun k => sample_agree k TInt64 TInt64 && sample_agree k TAny TAny) [FArray; FCatalog; FList; FMap; FSet] = true.
-Proof. vm_compute. reflexivity. Qed.
-
-(* every case type of the regenerated type switches is one the interpreter gives a meaning to *)
-Lemma gen_case_types_known : forallb known_case_type (flat_map (fun g => case_types 10 (g_body g)) gen_ctors) = true.
-Proof. vm_compute. reflexivity. Qed.
-
-(* no statement or expression of the regenerated constructors is outside the language *)
-Fixpoint has_unknown (fuel : nat) (ss : list mstmt) : bool :=
-  match fuel with
-  | O => true
-  | S f => existsb (fun s => match s with
-                             | SUnknown _ => true
-                             | SIf _ a b => has_unknown f a || has_unknown f b
-                             | SSwitch cases d => existsb (fun cb => has_unknown f (snd cb)) cases || match d with Some b => has_unknown f b | None => false end
-                             | STypeSwitch cases d => existsb (fun cb => has_unknown f (snd cb)) cases || match d with Some b => has_unknown f b | None => false end
-                             | SArgLoop b | SIterLoop _ b | SRange _ _ b => has_unknown f b
-                             | _ => false
-                             end) ss
-  end.
-Lemma gen_no_unknown_statement : existsb (fun g => has_unknown 10 (g_body g)) gen_ctors = false.
-Proof. vm_compute. reflexivity. Qed.
-
 Print Assumptions gen_Association_is_the_model.
 Print Assumptions gen_Stack_is_the_model.
 Print Assumptions gen_Queue_is_the_model.
-Print Assumptions C20_gen_association_key_value.
-Print Assumptions C20_gen_notation_is_transparent.
-Print Assumptions C20_gen_size_or_capacity.
-Print Assumptions C20_gen_source_is_the_class_constructor_on_the_parsed_items.
-Print Assumptions gen_remaining_agree_on_samples_partial.
-Print Assumptions gen_case_types_known.
